@@ -34,11 +34,13 @@ type Harness struct {
 	Tiers         string // "quick,thorough" or "thorough"
 	QueryTimeout  int    // ms
 	MaxPaths      int
-	Expect        string // "" or "violation" (mutation self-tests)
-	StrLen        int    // string length bound of the bounded (stage B) encoding
-	StageATimeout int    // ms: limit for the unbounded SMT-string attempt
-	NoValidate    bool   // no native validation samples (harness depends on uncontrollable native state, e.g. wall-clock nanoseconds)
-	Upgrade       bool   // try to upgrade bounded unsat verdicts of obligations to unbounded ones
+	Expect        string          // "" or "violation" (mutation self-tests)
+	StrLen        int             // string length bound of the bounded (stage B) encoding
+	StageATimeout int             // ms: limit for the unbounded SMT-string attempt
+	Havoc         map[string]bool // functions replaced by fresh results (harness-declared over-approximation)
+	Guess         bool            // try guess-and-check models first (large strings)
+	NoValidate    bool            // no native validation samples (harness depends on uncontrollable native state, e.g. wall-clock nanoseconds)
+	Upgrade       bool            // try to upgrade bounded unsat verdicts of obligations to unbounded ones
 	File          string
 }
 
@@ -260,6 +262,15 @@ func (w *World) load() error {
 								h.StageATimeout = n
 							case "upgrade":
 								h.Upgrade = true
+							case "havoc":
+								if h.Havoc == nil {
+									h.Havoc = map[string]bool{}
+								}
+								for _, f := range strings.Split(v, ",") {
+									h.Havoc[f] = true
+								}
+							case "guess":
+								h.Guess = true
 							case "novalidate":
 								h.NoValidate = true
 							case "also":
